@@ -98,7 +98,10 @@ T_OpBegin == /\ IsEvent("op_begin")
                 /\ G("ob.handle", o.h = "none" \/ o.h \in DOMAIN hnd)
                 /\ RunIssue(c, o)
 
-LastMatches(op, L) == /\ G("oe.res." \o op, L.res = E.res)
+\* (a liveness query about an actor that FAILED implicates failure visibility, C06, besides C14)
+ResGuard(op, L) == IF op \in {"stopped", "running", "try_from_registry", "already_running"} /\ L.a \in Actor /\ act[L.a].pc = "failed"
+                   THEN "oe.res." \o op \o ".failed" ELSE "oe.res." \o op
+LastMatches(op, L) == /\ G(ResGuard(op, L), L.res = E.res)
                       /\ G("oe.val." \o op, L.res \notin {"ok", "some"} \/ (L.pos = E.pos /\ L.inst = E.inst))
                       /\ G("oe.actor." \o op, E.a = "*" \/ L.a = E.a)
 T_OpEnd == /\ IsEvent("op_end")
@@ -114,7 +117,8 @@ T_OpEnd == /\ IsEvent("op_end")
                  ELSE /\ ~(cli[c].stage = "flush" /\ cli[c].op = "call")     \* routing: that step is silent
                       /\ G("oe.ready." \o cli[c].op, ClientContEnabled(c))
                       /\ RunCont(c)
-                      /\ G("oe.done", cli'[c].stage = "idle")
+                      /\ G(IF cli[c].stage = "reglock" /\ cli[c].arg.ty \in DOMAIN reg.ent /\ act[reg.ent[cli[c].arg.ty]].pc = "failed" THEN "oe.done.failed" ELSE "oe.done",
+                           cli'[c].stage = "idle")
                       /\ LastMatches(cli[c].op, cli'[c].last)
 
 T_Cb == /\ IsEvent("cb")
